@@ -82,29 +82,48 @@ class LenFunc:
     def __init__(self, f, id_param, ni_param, nx_param):
         self.f = f
         self.names = {id_param: A('id'), ni_param: NI, nx_param: NX}
+        self.names_src = {id_param, ni_param, nx_param}
 
     def paths(self):
         """-> list of (conditions [(test node, truth)], return expr node)"""
         out = []
 
-        def walk(body, conds):
-            for st in body:
-                if isinstance(st, ast.Return):
-                    out.append((list(conds), st.value))
-                    return True
-                if isinstance(st, ast.If):
-                    a = walk(st.body, conds + [(st.test, True)])
-                    b = walk(st.orelse, conds + [(st.test, False)]) if st.orelse else False
-                    if a and b:
-                        return True
-                    if a and not st.orelse:
-                        conds = conds + [(st.test, False)]
-                    continue
-                if isinstance(st, (ast.Expr, ast.Pass)):
-                    continue
-                raise AnalysisError('%s: statement `%s` is outside the length algebra' % (self.f.qualname, U(st)[:40]))
-            return False
-        walk(self.f.node.body, [])
+        import copy
+
+        class Sub(ast.NodeTransformer):
+            def __init__(self, env):
+                self.env = env
+
+            def visit_Name(self, n):
+                if isinstance(n.ctx, ast.Load) and n.id in self.env:
+                    return copy.deepcopy(self.env[n.id])
+                return n
+
+        def walk(stmts, conds, env):
+            """paths through a statement list; returns the states (conds, env) that fall off its end.
+            env: result locals assigned on this path (name -> expression over the parameters)"""
+            if not stmts:
+                return [(conds, env)]
+            st, rest = stmts[0], stmts[1:]
+            if isinstance(st, ast.Return):
+                out.append((list(conds), Sub(env).visit(copy.deepcopy(st.value))))
+                return []
+            if isinstance(st, ast.If):
+                falls = walk(st.body, conds + [(st.test, True)], dict(env)) + \
+                    walk(st.orelse, conds + [(st.test, False)], dict(env))
+                res = []
+                for (c, e) in falls:
+                    res.extend(walk(rest, c, e))
+                return res
+            if isinstance(st, ast.Assign) and len(st.targets) == 1 and isinstance(st.targets[0], ast.Name) and \
+                    st.targets[0].id not in self.names_src:
+                env = dict(env)
+                env[st.targets[0].id] = Sub(env).visit(copy.deepcopy(st.value))
+                return walk(rest, conds, env)
+            if isinstance(st, (ast.Expr, ast.Pass)):
+                return walk(rest, conds, env)
+            raise AnalysisError('%s: statement `%s` is outside the length algebra' % (self.f.qualname, U(st)[:40]))
+        walk(self.f.node.body, [], {})
         return out
 
     # expressions -> Poly, under a constraint set (for abs / min / max)
